@@ -4426,10 +4426,21 @@ def unify_chunks(*args, **kwargs):
     nameinds = []
     blockdim_dict = dict()
     max_parts = 0
+    # The different chunkings that meet on each index
+    seen = defaultdict(set)
+    for a, ind in arginds:
+        if ind is not None:
+            for j, c in zip(ind, a.chunks):
+                seen[j].add(c)
     for a, ind in arginds:
         if ind is not None:
             nameinds.append((a.name, ind))
-            blockdim_dict[a.name] = a.chunks
+            # An axis of length 1 is a broadcast axis also when a zero-size
+            # chunk splits it into several blocks, e.g. (1, 0) after slicing
+            blockdim_dict[a.name] = tuple(
+                (1,) if len(c) > 1 and sum(c) == 1 and len(seen[j]) > 1 else c
+                for j, c in zip(ind, a.chunks)
+            )
             max_parts = max(max_parts, a.npartitions)
         else:
             nameinds.append((a, ind))
